@@ -364,7 +364,7 @@ def run_meeting(c):
 
 # ----------------------------------------------------------------------------------------- (c) generated degeneracies
 CONFIGS = ["coincident_points2", "coincident_points3", "equal_lines2", "equal_planes", "three_collinear_points3", "three_planes_through_line",
-           "point_on_line3", "line_in_plane", "zero_vector", "equal_lines3", "skew_lines3", "meeting_lines3", "general2", "general3"]
+           "point_on_line3", "line_in_plane", "zero_vector", "equal_lines3", "skew_lines3", "meeting_lines3", "general2", "general3", "line_at_infinity_and_plane"]
 
 
 @st.composite
@@ -417,6 +417,19 @@ def config_args(cfg, dim, base, coef, degen, zero_at):
     if cfg == "point_on_line3":
         r = comb(b[0], b[1], c[0], nz(1)) if degen else b[2]
         return "join", [("L", b[0], b[1]), ("P", r)]
+    if cfg == "line_at_infinity_and_plane":
+        # a line of the plane at infinity (join of two directions) and a plane: dependent only if the plane contains the line
+        # (it is parallel to both directions, or the plane at infinity itself)
+        d0, d1 = b[0][:-1] + [Fraction(0)], b[1][:-1] + [Fraction(0)]
+        if X.rank([d0, d1]) < 2:
+            raise Skip("dependent directions")
+        if degen:
+            if X.rank([d0, d1, b[2]]) < 3:
+                raise Skip("dependent")
+            h = X.cofactor_hyperplane([d0, d1, b[2]])
+        else:
+            h = b[3]
+        return "meet", [("H", h), ("L", d0, d1)]
     if cfg == "line_in_plane":
         # plane through the line (b0,b1) and b2 if degenerate, else arbitrary plane b3 read as coordinates
         if degen:
